@@ -12,6 +12,7 @@ R-C07-3  (syntax, provenance) the mutability flag recorded by every `Environment
 R-C07-4  `fin self`: in `unify_fun_arg` the SELF branch reads the declared argument's `mutable` flag.
 """
 import itertools
+import re
 from .common import walk, src, strip, AnchorError, must_call_blocks, enum_switch_targets, pat_alternatives, tail_expr
 
 
@@ -275,10 +276,22 @@ def _decision_table(chk, facts):
     if target is None:
         raise AnchorError("check_iden_mut: no `match env.get_var(..)`")
     # the result must be what decides Ok/Err: `if errors.is_empty() { Ok(()) } else { Err(..) }`
-    tail = tail_expr(fn["body"])
-    tail = strip(tail) if tail else None
-    if not (tail and tail.get("k") == "if" and src(tail["c"]).endswith(".is_empty()") and "Ok" in src(tail["then"]) and "Err" in src(tail.get("else"))):
-        raise AnchorError("check_iden_mut no longer ends in `if errors.is_empty() { Ok } else { Err }`")
+    # (decided on the enumerated paths: `if e.is_empty() { Ok } else { Err }`, `if !e.is_empty() { return Err } Ok(())` .. alike)
+    from .common import fn_paths
+    ok_when_empty = err_when_not = other = 0
+    for p_ in fn_paths(fn["body"]):
+        if p_.result is None:
+            continue
+        r_ = src(strip(p_.result)).replace(" ", "")
+        emp = [pol if not c.startswith("!") else (not pol) for c, pol in p_.conds if re.fullmatch(r"!?\(?\w+\.is_empty\(\)\)?", c)]
+        if emp and emp[-1] and r_.startswith("Ok("):
+            ok_when_empty += 1
+        elif emp and not emp[-1] and r_.startswith("Err("):
+            err_when_not += 1
+        else:
+            other += 1
+    if not (ok_when_empty >= 1 and err_when_not >= 1 and other == 0):
+        raise AnchorError(f"check_iden_mut no longer yields Ok exactly when the collected errors are empty ({ok_when_empty} ok paths, {err_when_not} err paths, {other} others)")
 
     def guard_formula(g):
         """-> python lambda over atoms dict(F=written mutable, S=self in class) or None"""
@@ -289,7 +302,8 @@ def _decision_table(chk, facts):
             return lambda a: a["F"]
         if s in ("!f_mut", "!*f_mut"):
             return lambda a: not a["F"]
-        if s in ("((var==SELF)&&env.class.is_some())", "(var==SELF&&env.class.is_some())", "((var==SELF)&&(env.class.is_some()))"):
+        conj = sorted(x.strip("()") for x in re.split(r"&&", s.strip("()")))
+        if conj == ["env.class.is_some", "var==SELF"] or sorted(c.replace("(", "").replace(")", "") for c in re.split(r"&&", s)) == ["env.class.is_some", "var==SELF"]:
             return lambda a: a["S"]
         return None
 
